@@ -5,6 +5,7 @@ import canon
 import gen_blocks
 import impl
 
+TECHNIQUE = 'Lean 4: full statement proved by simulation over all client programs, inputs and skip sets (skip_sim / C05_skip_prunes), instantiated at the parser model; model tied to parser.py by correspondence on event streams under skip sets; pruning oracle on the implementation as failing-input search'
 LEAN_TARGET = "CxxModel.Props.C05"
 THEOREMS = [
     "Cxx.skip_sim",
